@@ -9,6 +9,7 @@ package corrupt
 import (
 	"bytes"
 	"context"
+	"encoding/binary"
 	"encoding/json"
 	"errors"
 	"fmt"
@@ -350,6 +351,48 @@ func mutateMsg(b []byte, m Mut, others [][]byte) []byte {
 	case "pairs.swap":
 		j := mod(m.B, len(pt.Pairs))
 		pt.Pairs[i], pt.Pairs[j] = pt.Pairs[j], pt.Pairs[i]
+	case "pairs.collapse", "pairs.rekind":
+		// The Hash field of every node kind is a claim. collapse: a whole subtree of the pre-order list is
+		// replaced by the hash reference the exporter itself uses for unloaded subtrees (same hash, same weight).
+		// rekind: one node is replaced by a node of another kind that claims the same hash (its subtree stays).
+		if pt.Pairs[i] == nil {
+			break
+		}
+		var p wmpt.PersistNodeBase
+		if err := cbor.Unmarshal(pt.Pairs[i].Value, &p); err != nil {
+			break
+		}
+		hash, weight := claimed(&p)
+		if hash == nil {
+			break
+		}
+		var re wmpt.PersistNodeBase
+		end := i + 1
+		if m.K == "pairs.collapse" {
+			end = extent(pt.Pairs, i, 0)
+			re.HashNode = &wmpt.PersistHashNode{Hash: hash, Weight: weight}
+		} else {
+			blob := append(append([]byte{}, hash...), 0, 0, 0, 0, 0, 0, 0, byte(weight))
+			switch mod(m.B, 5) {
+			case 0:
+				re.HashNode = &wmpt.PersistHashNode{Hash: hash, Weight: weight}
+			case 1:
+				re.Value = &wmpt.PersistNodeValue{Value: []byte("x"), Hash: hash, Weight: weight}
+			case 2:
+				re.Short = &wmpt.PersistNodeShort{Key: []byte{1, 2}, Hash: hash, Value: blob}
+			case 3:
+				ch := make([][]byte, 16)
+				ch[mod(m.A, 16)] = blob
+				re.Branch = &wmpt.PersistNodeBranch{Hash: hash, Children: ch}
+			case 4:
+				re.NilNode = &wmpt.PersistNilNode{}
+			}
+		}
+		nb, err := cbor.Marshal(&re)
+		if err != nil {
+			break
+		}
+		pt.Pairs = append(append(append([]*wmpt.PersistTriePair{}, pt.Pairs[:i]...), &wmpt.PersistTriePair{Value: nb}), pt.Pairs[end:]...)
 	default:
 		if pt.Pairs[i] != nil {
 			k := strings.TrimPrefix(m.K, "node.")
@@ -365,6 +408,60 @@ func mutateMsg(b []byte, m Mut, others [][]byte) []byte {
 		return b
 	}
 	return out
+}
+
+// claimed returns the hash a persisted node claims for itself and its weight.
+func claimed(p *wmpt.PersistNodeBase) ([]byte, uint64) {
+	wt := func(blob []byte) uint64 {
+		if len(blob) >= 40 {
+			return binary.BigEndian.Uint64(blob[32:40])
+		}
+		return 0
+	}
+	switch {
+	case p.Branch != nil:
+		var sum uint64
+		for _, c := range p.Branch.Children {
+			sum += wt(c)
+		}
+		return p.Branch.Hash, sum
+	case p.Short != nil:
+		return p.Short.Hash, wt(p.Short.Value)
+	case p.Value != nil:
+		return p.Value.Hash, p.Value.Weight
+	case p.HashNode != nil:
+		return p.HashNode.Hash, p.HashNode.Weight
+	}
+	return nil, 0
+}
+
+// extent returns the index just past the subtree that starts at pairs[i] in a pre-order path export.
+func extent(pairs []*wmpt.PersistTriePair, i, depth int) int {
+	if i >= len(pairs) || depth > 80 {
+		return len(pairs)
+	}
+	end := i + 1
+	if pairs[i] == nil {
+		return end
+	}
+	var p wmpt.PersistNodeBase
+	if err := cbor.Unmarshal(pairs[i].Value, &p); err != nil {
+		return end
+	}
+	switch {
+	case p.Branch != nil:
+		for _, c := range p.Branch.Children {
+			if len(c) > 0 {
+				end = extent(pairs, end, depth+1)
+			}
+		}
+	case p.Short != nil:
+		end = extent(pairs, end, depth+1)
+	}
+	if end > len(pairs) {
+		end = len(pairs)
+	}
+	return end
 }
 
 // faultyReader delivers short reads and fails (EOF or error) after a chosen number of bytes.
@@ -736,7 +833,7 @@ func isNodeOp(k string) bool {
 
 var byteOps = []string{"trunc", "trunc", "flip", "setbyte", "rmsep", "typebyte", "splice", "insert", "dupregion"}
 var nodeOps = []string{"kids", "childlen", "shortval", "bigweight", "nest", "nilfields"}
-var msgOps = []string{"pairs.drop", "pairs.dup", "pairs.nil", "pairs.trunc", "pairs.swap", "node.kids", "node.childlen", "node.shortval", "node.bigweight", "node.nest", "node.nilfields"}
+var msgOps = []string{"pairs.drop", "pairs.dup", "pairs.nil", "pairs.trunc", "pairs.swap", "pairs.collapse", "pairs.collapse", "pairs.rekind", "pairs.rekind", "node.kids", "node.childlen", "node.shortval", "node.bigweight", "node.nest", "node.nilfields"}
 
 // Gen generates a corruption script.
 func Gen(r *sim.Rand, tier string) sim.Script {
